@@ -1,0 +1,1050 @@
+//! C20 adapter, protocol level: the real `Bitswap` event loop (`run()`), its `BitswapHandle` and a
+//! real `TransportService` behind the line protocol.
+//!
+//! `Bitswap::run()` runs as a task of a current-thread tokio runtime with a paused clock. The adapter
+//! plays everything around it: the sender of `InnerTransportEvent`s, the command channel of every
+//! connection, the transport manager's command channel and shared peer map, the far end of every
+//! substream. After each operation the runtime runs until nothing can make progress any more (a 40 s
+//! sleep on the paused clock: the 15 s `WRITE_TIMEOUT` of a stalled write fires on the way).
+//!
+//! Operations (`p<i>` = peer number, peers 1..=3 have a dialable address):
+//!
+//! * `pnew`                                   fresh protocol instance
+//! * `conn <p> [dead]` / `disc <p>` / `conndead <p>` connection established (its command channel already
+//!   gone) / closed / its command channel gone
+//! * `dialfail <p>`                           `DialFailure`
+//! * `view <p> c|g|d`                         the manager's view of the peer (connected/dialing/disconnected)
+//! * `subopen s<n> [fail=<k>[.<off>]|stall=<k>]`  answer an `OpenSubstream` command with an outbound
+//!   substream that accepts `k` complete frames (and `off` bytes of the next) before writes fail / stall
+//! * `subfail s<n>`                           `SubstreamOpenFailure`
+//! * `plan s<n> ok|fail=<k>[.<off>]|stall=<k>`  change the fate of a substream the protocol still holds
+//! * `resp <p> k=<v>/<codec>/<mh>/<dlen> <entries>`   `BitswapHandle::send_response`; entries are
+//!   `b<size>.<fill>` (block), `h<i>` / `d<i>` (presence Have / DontHave of CID number `i`), or `-`
+//! * `req <p> k=... <cids>`                   `BitswapHandle::send_request`; `b<i>` / `h<i>` or `-`
+//! * `insub <p>`                              inbound substream `i<k>` of the peer
+//! * `inmsg i<k> [w=<cidhex>/<type>+..] [b=<prefixhex>:<data>[:<digest>]+..] [p=<cidhex>/<type>+..] [nowl]`
+//!   the remote writes one prost-encoded message
+//! * `inbad i<k> <hex>` / `inbig i<k>` / `inclose i<k>` / `inreset i<k>`   undecodable payload, length
+//!   prefix above the limit, clean close, reset
+//!
+//! Observation: `<result>;<service calls>;<user events>;<frames written per substream>;<protocol state>`.
+
+use super::{
+    config, schema, Bitswap, BitswapEvent, BitswapHandle, BlockPresenceType, Config, Prefix,
+    ResponseType, SubstreamAction, WantType,
+};
+use crate::{
+    addresses::PublicAddresses,
+    codec::ProtocolCodec,
+    error::SubstreamError,
+    protocol::{
+        connection::ConnectionHandle, Direction, InnerTransportEvent, Permit, ProtocolCommand,
+        SubstreamKeepAlive, TransportService,
+    },
+    substream::Substream,
+    transport::{
+        manager::{
+            handle::InnerTransportManagerCommand,
+            verif_c16::{new_peers, set_view, Peers, View},
+            SupportedTransport, TransportManagerHandle,
+        },
+        Endpoint,
+    },
+    types::{protocol::ProtocolName, ConnectionId, SubstreamId},
+    verif::{
+        hex,
+        io::{frame, pipe, unframe, PipeCtl},
+        peer, peer_index,
+    },
+    PeerId,
+};
+
+use cid::{multihash::Multihash, Cid, Version};
+use futures::{FutureExt, StreamExt};
+use multiaddr::Multiaddr;
+use prost::Message;
+use tokio::{
+    io::{AsyncRead, AsyncWrite, ReadBuf},
+    sync::mpsc::{channel, Receiver, Sender},
+};
+
+use std::{
+    cell::RefCell,
+    collections::{BTreeMap, HashMap, HashSet},
+    io,
+    pin::Pin,
+    sync::{Arc, Mutex},
+    task::{Context, Poll, Waker},
+    time::Duration,
+};
+
+const SETTLE: Duration = Duration::from_secs(40);
+const FOREVER: Duration = Duration::from_secs(10 * 365 * 24 * 3600);
+const MAX_ENTRIES: usize = 64;
+const MAX_BLOCK: usize = 1 << 22;
+
+thread_local! {
+    static SNAP: RefCell<String> = RefCell::new(String::new());
+}
+
+/// Numeric value of an id type whose field is private.
+fn num<T: std::fmt::Debug>(id: &T) -> usize {
+    format!("{id:?}").chars().filter(|c| c.is_ascii_digit()).collect::<String>().parse().expect("id")
+}
+
+/// The id a `Substream` was created with (only its `Debug` output shows it).
+fn substream_number(s: &Substream) -> usize {
+    let d = format!("{s:?}");
+    let rest = d.split("substream_id: SubstreamId(").nth(1).unwrap_or("");
+    rest.chars().take_while(|c| c.is_ascii_digit()).collect::<String>().parse().unwrap_or(usize::MAX)
+}
+
+fn pname(p: &PeerId) -> String {
+    peer_index(p).map_or("?".into(), |i| i.to_string())
+}
+
+fn join(v: Vec<String>, sep: &str) -> String {
+    if v.is_empty() {
+        "-".into()
+    } else {
+        v.join(sep)
+    }
+}
+
+/// Index written into the first four digest bytes of an adapter-made CID.
+fn cid_index(cid: &Cid) -> String {
+    let d = cid.hash().digest();
+    if d.len() < 4 || d[4..].iter().any(|b| *b != 0xab) {
+        return "x".into();
+    }
+    u32::from_le_bytes([d[0], d[1], d[2], d[3]]).to_string()
+}
+
+fn kind_of(cid: &Cid) -> String {
+    format!("{}/{}/{}/{}", u64::from(cid.version()), cid.codec(), cid.hash().code(), cid.hash().size())
+}
+
+fn block_word(block: &[u8]) -> String {
+    match block.first() {
+        None => "b0.0".into(),
+        Some(f) if block.iter().all(|b| b == f) => format!("b{}.{}", block.len(), f),
+        Some(_) => format!("b{}.x", block.len()),
+    }
+}
+
+fn action_word(action: &SubstreamAction) -> String {
+    match action {
+        SubstreamAction::SendRequest(cids) => {
+            let kind = cids.first().map_or("-".into(), |(c, _)| kind_of(c));
+            let items = cids
+                .iter()
+                .map(|(c, t)| format!("{}{}", if *t == WantType::Block { "b" } else { "h" }, cid_index(c)))
+                .collect();
+            format!("Q[{}|{}]", kind, join(items, ","))
+        }
+        SubstreamAction::SendResponse(entries) => {
+            let kind = entries.first().map_or("-".into(), |e| match e {
+                ResponseType::Block { cid, .. } | ResponseType::Presence { cid, .. } => kind_of(cid),
+            });
+            let items = entries
+                .iter()
+                .map(|e| match e {
+                    ResponseType::Block { block, .. } => block_word(block),
+                    ResponseType::Presence { cid, presence } => format!(
+                        "{}{}",
+                        if *presence == BlockPresenceType::Have { "h" } else { "d" },
+                        cid_index(cid)
+                    ),
+                })
+                .collect();
+            format!("R[{}|{}]", kind, join(items, ","))
+        }
+    }
+}
+
+impl Bitswap {
+    /// Publish the bookkeeping to the adapter (called by the hook line in `run()`).
+    pub(super) fn verif_snapshot(&self) {
+        let mut out: Vec<String> =
+            self.outbound.iter().map(|(p, s)| format!("{}:{}", pname(p), substream_number(s))).collect();
+        out.sort();
+        let mut pend: Vec<String> = self
+            .pending_outbound
+            .iter()
+            .map(|(p, a)| format!("{}:{}", pname(p), join(a.iter().map(action_word).collect(), "")))
+            .collect();
+        pend.sort();
+        let mut subs: Vec<(usize, String)> =
+            self.pending_substreams.iter().map(|(s, p)| (num(s), pname(p))).collect();
+        subs.sort();
+        let mut dials: Vec<String> = self.pending_dials.iter().map(pname).collect();
+        dials.sort();
+        // (`inbound` is not part of the snapshot: a stream that ends is removed by the `StreamMap`
+        // itself without an iteration of the loop; the adapter sees the substream being dropped)
+        let snap = format!(
+            "out={}\u{1}pend={}\u{1}subs={}\u{1}dials={}",
+            join(out, ","),
+            join(pend, ","),
+            join(subs.into_iter().map(|(s, p)| format!("{s}:{p}")).collect(), ","),
+            join(dials, ","),
+        );
+        SNAP.with(|s| *s.borrow_mut() = snap);
+    }
+}
+
+// ------------------------------------------------------------------------------ outbound far end
+
+#[derive(Clone, Copy, PartialEq, Eq, Debug)]
+enum Plan {
+    Ok,
+    /// accept `k` complete frames and `off` bytes of the next one, then every write fails
+    Fail(usize, usize),
+    /// accept `k` complete frames, then writes stay pending
+    Stall(usize),
+}
+
+struct OutShared {
+    /// bytes accepted and not yet reported
+    data: Vec<u8>,
+    /// length prefix of the frame being written (while incomplete)
+    header: Vec<u8>,
+    /// total length (prefix + body) of the frame being written, once its prefix is complete
+    need: Option<usize>,
+    /// bytes of the current frame accepted so far (prefix included)
+    in_frame: usize,
+    /// complete frames accepted since the plan was set
+    frames: usize,
+    plan: Plan,
+    failed: bool,
+    dropped: bool,
+    waker: Option<Waker>,
+}
+
+/// The transport end of an outbound substream: records what the protocol writes, fails as planned.
+struct OutIo(Arc<Mutex<OutShared>>);
+
+impl AsyncRead for OutIo {
+    fn poll_read(self: Pin<&mut Self>, _cx: &mut Context<'_>, _buf: &mut ReadBuf<'_>) -> Poll<io::Result<()>> {
+        Poll::Pending
+    }
+}
+
+impl AsyncWrite for OutIo {
+    fn poll_write(self: Pin<&mut Self>, cx: &mut Context<'_>, buf: &[u8]) -> Poll<io::Result<usize>> {
+        let mut s = self.0.lock().unwrap();
+        if s.failed {
+            return Poll::Ready(Err(io::ErrorKind::BrokenPipe.into()));
+        }
+        if buf.is_empty() {
+            return Poll::Ready(Ok(0));
+        }
+        let mut allowed = buf.len();
+        match s.plan {
+            Plan::Ok => {}
+            Plan::Fail(k, off) =>
+                if s.frames >= k {
+                    if s.frames > k || s.in_frame >= off {
+                        s.failed = true;
+                        return Poll::Ready(Err(io::ErrorKind::BrokenPipe.into()));
+                    }
+                    allowed = allowed.min(off - s.in_frame);
+                },
+            Plan::Stall(k) =>
+                if s.frames >= k {
+                    s.waker = Some(cx.waker().clone());
+                    return Poll::Pending;
+                },
+        }
+        let n = match s.need {
+            None => {
+                // length prefix, one byte at a time
+                let b = buf[0];
+                s.header.push(b);
+                if b & 0x80 == 0 || s.header.len() >= 10 {
+                    let mut len = 0usize;
+                    for (i, h) in s.header.iter().enumerate() {
+                        len |= ((h & 0x7f) as usize) << (7 * i).min(63);
+                    }
+                    s.need = Some(s.header.len() + len);
+                    s.header.clear();
+                }
+                1
+            }
+            Some(total) => allowed.min(total - s.in_frame),
+        };
+        s.data.extend_from_slice(&buf[..n]);
+        s.in_frame += n;
+        if s.need == Some(s.in_frame) {
+            s.frames += 1;
+            s.in_frame = 0;
+            s.need = None;
+        }
+        Poll::Ready(Ok(n))
+    }
+
+    fn poll_flush(self: Pin<&mut Self>, _cx: &mut Context<'_>) -> Poll<io::Result<()>> {
+        let s = self.0.lock().unwrap();
+        if s.failed {
+            return Poll::Ready(Err(io::ErrorKind::BrokenPipe.into()));
+        }
+        Poll::Ready(Ok(()))
+    }
+
+    fn poll_shutdown(self: Pin<&mut Self>, _cx: &mut Context<'_>) -> Poll<io::Result<()>> {
+        Poll::Ready(Ok(()))
+    }
+}
+
+impl Drop for OutIo {
+    fn drop(&mut self) {
+        if let Ok(mut s) = self.0.lock() {
+            s.dropped = true;
+        }
+    }
+}
+
+struct Out {
+    shared: Arc<Mutex<OutShared>>,
+}
+
+impl Out {
+    /// Complete frames written since the last call, decoded; trailing bytes of an incomplete frame
+    /// are reported once the substream failed or was dropped.
+    fn take(&self) -> Option<String> {
+        let mut s = self.shared.lock().unwrap();
+        let (frames, used) = unframe(&s.data);
+        let rest = s.data.len() - used;
+        let mut words: Vec<String> = frames.iter().map(|f| frame_word(f)).collect();
+        let partial = if rest > 0 && (s.failed || s.dropped) {
+            s.data.clear();
+            Some(rest)
+        } else {
+            s.data.drain(..used);
+            None
+        };
+        if let Some(rest) = partial {
+            words.push(format!("~{rest}"));
+        }
+        if words.is_empty() {
+            None
+        } else {
+            Some(words.join("|"))
+        }
+    }
+}
+
+fn prefix_kind(p: &[u8]) -> String {
+    match Prefix::from_bytes(p) {
+        Some(p) => format!("{}/{}/{}/{}", u64::from(p.version), p.codec, p.multihash_type, p.multihash_len),
+        None => format!("?{}", hex(p)),
+    }
+}
+
+/// One bitswap message as seen by the remote.
+fn frame_word(f: &[u8]) -> String {
+    let Ok(m) = schema::bitswap::Message::decode(f) else {
+        return format!("U{}", f.len());
+    };
+    let mut odd = String::new();
+    if !m.blocks.is_empty() || m.pending_bytes != 0 {
+        odd.push_str("!legacy");
+    }
+    let wl = m.wantlist.as_ref();
+    let entries = wl.map_or(0, |w| w.entries.len());
+    if entries > 0 {
+        let w = wl.expect("checked");
+        if !m.payload.is_empty() || !m.block_presences.is_empty() {
+            odd.push_str("!mixed");
+        }
+        if w.full || w.entries.iter().any(|e| e.priority != 1 || e.cancel || e.send_dont_have) {
+            odd.push_str("!flags");
+        }
+        let mut kind = String::from("-");
+        let items: Vec<String> = w
+            .entries
+            .iter()
+            .enumerate()
+            .map(|(i, e)| match Cid::read_bytes(e.block.as_slice()) {
+                Ok(cid) if cid.to_bytes() == e.block => {
+                    if i == 0 {
+                        kind = kind_of(&cid);
+                    } else if kind != kind_of(&cid) {
+                        odd.push_str("!kinds");
+                    }
+                    format!(
+                        "{}{}",
+                        match e.want_type {
+                            0 => "b".to_string(),
+                            1 => "h".to_string(),
+                            t => format!("t{t}:"),
+                        },
+                        cid_index(&cid)
+                    )
+                }
+                _ => format!("?{}", hex(&e.block)),
+            })
+            .collect();
+        return format!("W{}/{}/{}{}", f.len(), kind, items.join("+"), odd);
+    }
+    if wl.is_none() {
+        odd.push_str("!nowl");
+    }
+    if !m.payload.is_empty() && !m.block_presences.is_empty() {
+        odd.push_str("!mixed");
+    }
+    if !m.payload.is_empty() {
+        let kind = prefix_kind(&m.payload[0].prefix);
+        if m.payload.iter().any(|b| prefix_kind(&b.prefix) != kind) {
+            odd.push_str("!kinds");
+        }
+        let items: Vec<String> = m.payload.iter().map(|b| block_word(&b.data)[1..].to_string()).collect();
+        return format!("B{}/{}/{}{}", f.len(), kind, items.join("+"), odd);
+    }
+    if !m.block_presences.is_empty() {
+        let mut kind = String::from("-");
+        let items: Vec<String> = m
+            .block_presences
+            .iter()
+            .enumerate()
+            .map(|(i, p)| match Cid::read_bytes(p.cid.as_slice()) {
+                Ok(cid) if cid.to_bytes() == p.cid => {
+                    if i == 0 {
+                        kind = kind_of(&cid);
+                    } else if kind != kind_of(&cid) {
+                        odd.push_str("!kinds");
+                    }
+                    format!("{}.{}", cid_index(&cid), p.r#type)
+                }
+                _ => format!("?{}", hex(&p.cid)),
+            })
+            .collect();
+        return format!("P{}/{}/{}{}", f.len(), kind, items.join("+"), odd);
+    }
+    format!("E{}{}", f.len(), odd)
+}
+
+// ------------------------------------------------------------------------------------ session
+
+struct Conn {
+    id: usize,
+    tx: Sender<ProtocolCommand>,
+    rx: Option<Receiver<ProtocolCommand>>,
+}
+
+struct Kind {
+    version: Version,
+    codec: u64,
+    mh: u64,
+    dlen: usize,
+}
+
+impl Kind {
+    fn parse(s: &str) -> Option<Kind> {
+        let f: Vec<&str> = s.strip_prefix("k=")?.split('/').collect();
+        let [v, codec, mh, dlen] = f.as_slice() else { return None };
+        let version = match *v {
+            "0" => Version::V0,
+            "1" => Version::V1,
+            _ => return None,
+        };
+        let kind = Kind { version, codec: codec.parse().ok()?, mh: mh.parse().ok()?, dlen: dlen.parse().ok()? };
+        if kind.dlen < 4 || kind.dlen > 64 {
+            return None;
+        }
+        kind.cid(0)?;
+        Some(kind)
+    }
+
+    /// CID number `i` of the kind: the digest is `i` (little endian, four bytes) then `0xab`s.
+    fn cid(&self, i: u32) -> Option<Cid> {
+        let mut digest = vec![0xabu8; self.dlen];
+        digest[..4].copy_from_slice(&i.to_le_bytes());
+        let hash = Multihash::<64>::wrap(self.mh, &digest).ok()?;
+        Cid::new(self.version, self.codec, hash).ok()
+    }
+}
+
+pub struct Session {
+    handle: BitswapHandle,
+    tx: Sender<InnerTransportEvent>,
+    cmd_rx: Receiver<InnerTransportManagerCommand>,
+    peers: Peers,
+    codec: ProtocolCodec,
+    conns: BTreeMap<u64, Conn>,
+    next_conn: usize,
+    /// real substream id -> number by first appearance
+    subs: HashMap<usize, usize>,
+    /// `s<n>` -> real id
+    sub_ids: Vec<usize>,
+    /// open commands not yet answered: `s<n>` -> (peer, permit)
+    opens: BTreeMap<usize, (u64, Permit)>,
+    /// far ends of the outbound substreams handed to the protocol: `s<n>` ->
+    outs: BTreeMap<usize, Out>,
+    /// far ends of the inbound substreams: `i<k>` (with the peer)
+    ins: Vec<(u64, PipeCtl)>,
+}
+
+fn idx(s: &str, prefix: char) -> Option<usize> {
+    s.strip_prefix(prefix)?.parse().ok()
+}
+
+fn parse_plan(t: &[&str]) -> Option<Plan> {
+    match t {
+        [] | ["ok"] => Some(Plan::Ok),
+        [p] => {
+            if let Some(v) = p.strip_prefix("fail=") {
+                let (k, off) = match v.split_once('.') {
+                    Some((k, off)) => (k.parse().ok()?, off.parse().ok()?),
+                    None => (v.parse().ok()?, 0),
+                };
+                // every frame is at least three bytes long: the failing frame stays incomplete
+                if off > 2 {
+                    return None;
+                }
+                Some(Plan::Fail(k, off))
+            } else {
+                Some(Plan::Stall(p.strip_prefix("stall=")?.parse().ok()?))
+            }
+        }
+        _ => None,
+    }
+}
+
+fn unhex_opt(s: &str) -> Option<Vec<u8>> {
+    if s == "-" {
+        return Some(Vec::new());
+    }
+    if s.len() % 2 != 0 || !s.bytes().all(|c| c.is_ascii_hexdigit()) {
+        return None;
+    }
+    Some((0..s.len() / 2).map(|i| u8::from_str_radix(&s[2 * i..2 * i + 2], 16).expect("hex")).collect())
+}
+
+fn parse_data(s: &str) -> Option<Vec<u8>> {
+    match s.split_once(',') {
+        Some((len, fill)) => {
+            let len: usize = len.parse().ok()?;
+            let fill: u8 = fill.parse().ok()?;
+            if len == 0 || len > (1 << 26) {
+                return None;
+            }
+            Some(vec![fill; len])
+        }
+        None => unhex_opt(s),
+    }
+}
+
+fn show_data(d: &[u8]) -> String {
+    match d.first() {
+        None => "-".into(),
+        Some(f) if d.iter().all(|b| b == f) => format!("{},{}", d.len(), f),
+        Some(_) => hex(d),
+    }
+}
+
+fn cid_hex(c: &Cid) -> String {
+    hex(&c.to_bytes())
+}
+
+/// `<hex>/<type>+...`
+fn parse_typed(s: &str) -> Option<Vec<(Vec<u8>, i32)>> {
+    s.split('+')
+        .map(|it| {
+            let (h, t) = it.split_once('/')?;
+            Some((unhex_opt(h)?, t.parse::<i32>().ok()?))
+        })
+        .collect()
+}
+
+impl Session {
+    pub fn create() -> Session {
+        let local = peer(0);
+        let (cmd_tx, cmd_rx) = channel(4096);
+        let peers = new_peers();
+        let mut manager_handle = TransportManagerHandle::new(
+            local,
+            Arc::clone(&peers),
+            cmd_tx,
+            HashSet::from_iter([SupportedTransport::Tcp]),
+            Default::default(),
+            PublicAddresses::new(local),
+        );
+        for i in 1..=3u64 {
+            let address: Multiaddr =
+                format!("/ip4/10.0.0.{i}/tcp/4444/p2p/{}", peer(i)).parse().expect("address");
+            assert_eq!(manager_handle.add_known_address(&peer(i), std::iter::once(address)), 1);
+        }
+        let (service, tx) = TransportService::new(
+            local,
+            ProtocolName::from(config::PROTOCOL_NAME),
+            Vec::new(),
+            Arc::new(Default::default()),
+            manager_handle,
+            FOREVER,
+            SubstreamKeepAlive::No,
+        );
+        let (config, handle) = Config::new();
+        let codec = config.codec.clone();
+        SNAP.with(|s| *s.borrow_mut() = String::new());
+        tokio::spawn(Bitswap::new(service, config).run());
+        Session {
+            handle,
+            tx,
+            cmd_rx,
+            peers,
+            codec,
+            conns: BTreeMap::new(),
+            next_conn: 0,
+            subs: HashMap::new(),
+            sub_ids: Vec::new(),
+            opens: BTreeMap::new(),
+            outs: BTreeMap::new(),
+            ins: Vec::new(),
+        }
+    }
+
+    async fn settle(&mut self) {
+        tokio::time::sleep(SETTLE).await;
+    }
+
+    fn drain(&mut self) -> String {
+        let mut calls = Vec::new();
+        while let Ok(cmd) = self.cmd_rx.try_recv() {
+            if let InnerTransportManagerCommand::DialPeer { peer } = cmd {
+                // the manager starts dialing
+                set_view(&self.peers, peer, View::Dialing);
+                calls.push(format!("dial:{}", pname(&peer)));
+            }
+        }
+        let mut opened = Vec::new();
+        for (p, conn) in self.conns.iter_mut() {
+            if let Some(rx) = conn.rx.as_mut() {
+                while let Ok(cmd) = rx.try_recv() {
+                    if let ProtocolCommand::OpenSubstream { substream_id, permit, .. } = cmd {
+                        opened.push((num(&substream_id), *p, permit));
+                    }
+                }
+            }
+        }
+        opened.sort_by_key(|o| o.0);
+        for (sid, p, permit) in opened {
+            let n = self.sub_ids.len();
+            self.subs.insert(sid, n);
+            self.sub_ids.push(sid);
+            self.opens.insert(n, (p, permit));
+            calls.push(format!("open:{p}:s{n}"));
+        }
+        let mut events = Vec::new();
+        while let Some(Some(event)) = self.handle.next().now_or_never() {
+            events.push(match event {
+                BitswapEvent::Request { peer, cids } => format!(
+                    "req:{}:{}",
+                    pname(&peer),
+                    join(cids.iter().map(|(c, t)| format!("{}/{}", cid_hex(c), *t as i32)).collect(), "+")
+                ),
+                BitswapEvent::Response { peer, responses } => format!(
+                    "resp:{}:{}",
+                    pname(&peer),
+                    join(
+                        responses
+                            .iter()
+                            .map(|r| match r {
+                                ResponseType::Block { cid, block } =>
+                                    format!("B{}:{}", cid_hex(cid), show_data(block)),
+                                ResponseType::Presence { cid, presence } =>
+                                    format!("P{}/{}", cid_hex(cid), *presence as i32),
+                            })
+                            .collect(),
+                        "+"
+                    )
+                ),
+            });
+        }
+        let mut writes = Vec::new();
+        for (n, out) in self.outs.iter() {
+            if let Some(w) = out.take() {
+                writes.push(format!("s{n}={w}"));
+            }
+        }
+        let snap = SNAP.with(|s| s.borrow().clone());
+        // real substream ids -> `s<n>`
+        let snap = snap
+            .split('\u{1}')
+            .map(|field| {
+                let Some((key, v)) = field.split_once('=') else { return field.to_string() };
+                if v == "-" || !(key == "out" || key == "subs") {
+                    return field.to_string();
+                }
+                let items: Vec<String> = v
+                    .split(',')
+                    .map(|it| {
+                        let (a, b) = it.split_once(':').unwrap_or((it, ""));
+                        let name = |x: &str| {
+                            x.parse::<usize>()
+                                .ok()
+                                .and_then(|x| self.subs.get(&x))
+                                .map_or(format!("?{x}"), |n| format!("s{n}"))
+                        };
+                        if key == "out" {
+                            format!("{a}:{}", name(b))
+                        } else {
+                            format!("{}:{b}", name(a))
+                        }
+                    })
+                    .collect();
+                format!("{key}={}", items.join(","))
+            })
+            .collect::<Vec<_>>()
+            .join(" ");
+        // peers with an inbound substream the protocol still holds
+        let mut inb: Vec<u64> =
+            self.ins.iter().filter(|(_, ctl)| !ctl.local_closed()).map(|(p, _)| *p).collect();
+        inb.sort();
+        inb.dedup();
+        format!(
+            "{};{};{};{} in={}",
+            join(calls, ","),
+            join(events, ","),
+            join(writes, " "),
+            snap,
+            join(inb.iter().map(|p| p.to_string()).collect(), ",")
+        )
+    }
+
+    fn entries(kind: &Kind, s: &str) -> Option<Vec<ResponseType>> {
+        if s == "-" {
+            return Some(Vec::new());
+        }
+        let items: Vec<&str> = s.split(',').collect();
+        if items.len() > MAX_ENTRIES {
+            return None;
+        }
+        items
+            .into_iter()
+            .map(|it| {
+                let (k, rest) = it.split_at(it.char_indices().nth(1)?.0);
+                match k {
+                    "b" => {
+                        let (size, fill) = rest.split_once('.')?;
+                        let (size, fill): (usize, u8) = (size.parse().ok()?, fill.parse().ok()?);
+                        if size > MAX_BLOCK || (size == 0 && fill != 0) {
+                            return None;
+                        }
+                        Some(ResponseType::Block { cid: kind.cid(0)?, block: vec![fill; size] })
+                    }
+                    "h" | "d" => Some(ResponseType::Presence {
+                        cid: kind.cid(rest.parse().ok()?)?,
+                        presence: if k == "h" { BlockPresenceType::Have } else { BlockPresenceType::DontHave },
+                    }),
+                    _ => None,
+                }
+            })
+            .collect()
+    }
+
+    fn wants(kind: &Kind, s: &str) -> Option<Vec<(Cid, WantType)>> {
+        if s == "-" {
+            return Some(Vec::new());
+        }
+        let items: Vec<&str> = s.split(',').collect();
+        if items.len() > MAX_ENTRIES {
+            return None;
+        }
+        items
+            .into_iter()
+            .map(|it| {
+                let (k, rest) = it.split_at(it.char_indices().nth(1)?.0);
+                let cid = kind.cid(rest.parse().ok()?)?;
+                match k {
+                    "b" => Some((cid, WantType::Block)),
+                    "h" => Some((cid, WantType::Have)),
+                    _ => None,
+                }
+            })
+            .collect()
+    }
+
+    fn inbound_message(t: &[&str]) -> Option<Vec<u8>> {
+        let mut m = schema::bitswap::Message { wantlist: Some(Default::default()), ..Default::default() };
+        for a in t {
+            if *a == "nowl" {
+                m.wantlist = None;
+            } else if let Some(w) = a.strip_prefix("w=") {
+                let entries = parse_typed(w)?
+                    .into_iter()
+                    .map(|(block, want_type)| schema::bitswap::wantlist::Entry {
+                        block,
+                        priority: 1,
+                        cancel: false,
+                        want_type,
+                        send_dont_have: false,
+                    })
+                    .collect();
+                m.wantlist = Some(schema::bitswap::Wantlist { entries, full: false });
+            } else if let Some(b) = a.strip_prefix("b=") {
+                for it in b.split('+') {
+                    let mut parts = it.split(':');
+                    let prefix = unhex_opt(parts.next()?)?;
+                    let data = parse_data(parts.next()?)?;
+                    m.payload.push(schema::bitswap::Block { prefix, data });
+                }
+            } else if let Some(p) = a.strip_prefix("p=") {
+                for (cid, r#type) in parse_typed(p)? {
+                    m.block_presences.push(schema::bitswap::BlockPresence { cid, r#type });
+                }
+            } else {
+                return None;
+            }
+        }
+        Some(m.encode_to_vec())
+    }
+
+    pub async fn step(&mut self, line: &str) -> String {
+        let t: Vec<&str> = line.split_whitespace().filter(|a| !a.starts_with("h=")).collect();
+        let n = |s: &str| s.parse::<u64>().ok().filter(|p| (1..=9).contains(p));
+        let bad = || "bad-op".to_string();
+        let res: String = match t.as_slice() {
+            ["conn", p, rest @ ..] => {
+                let Some(p) = n(p) else { return bad() };
+                // `dead`: the connection task is already gone when the event is handled
+                let dead = match rest {
+                    [] => false,
+                    ["dead"] => true,
+                    _ => return bad(),
+                };
+                if self.conns.contains_key(&p) {
+                    "none".into()
+                } else {
+                    let (tx, rx) = channel(4096);
+                    let id = self.next_conn;
+                    self.next_conn += 1;
+                    let address: Multiaddr = format!("/ip4/10.0.0.{p}/tcp/4444").parse().expect("address");
+                    set_view(&self.peers, peer(p), View::Connected);
+                    let _ = self
+                        .tx
+                        .send(InnerTransportEvent::ConnectionEstablished {
+                            peer: peer(p),
+                            connection: ConnectionId::from(id),
+                            endpoint: Endpoint::dialer(address, ConnectionId::from(id)),
+                            sender: ConnectionHandle::new(ConnectionId::from(id), tx.clone()),
+                        })
+                        .await;
+                    self.conns.insert(p, Conn { id, tx, rx: if dead { None } else { Some(rx) } });
+                    "ok".into()
+                }
+            }
+            ["disc", p] => {
+                let Some(p) = n(p) else { return bad() };
+                match self.conns.remove(&p) {
+                    None => "none".into(),
+                    Some(conn) => {
+                        set_view(&self.peers, peer(p), View::Disconnected);
+                        let _ = self
+                            .tx
+                            .send(InnerTransportEvent::ConnectionClosed {
+                                peer: peer(p),
+                                connection: ConnectionId::from(conn.id),
+                            })
+                            .await;
+                        "ok".into()
+                    }
+                }
+            }
+            ["conndead", p] => {
+                let Some(p) = n(p) else { return bad() };
+                match self.conns.get_mut(&p) {
+                    Some(conn) if conn.rx.is_some() => {
+                        conn.rx = None;
+                        "ok".into()
+                    }
+                    _ => "none".into(),
+                }
+            }
+            ["dialfail", p] => {
+                let Some(p) = n(p) else { return bad() };
+                if !self.conns.contains_key(&p) {
+                    set_view(&self.peers, peer(p), View::Disconnected);
+                }
+                let _ = self
+                    .tx
+                    .send(InnerTransportEvent::DialFailure { peer: peer(p), addresses: Vec::new() })
+                    .await;
+                "ok".into()
+            }
+            ["view", p, v] => {
+                let Some(p) = n(p) else { return bad() };
+                let view = match *v {
+                    "c" => View::Connected,
+                    "g" => View::Dialing,
+                    "d" => View::Disconnected,
+                    _ => return bad(),
+                };
+                set_view(&self.peers, peer(p), view);
+                "ok".into()
+            }
+            ["subopen", s, rest @ ..] => {
+                let (Some(k), Some(plan)) = (idx(s, 's'), parse_plan(rest)) else { return bad() };
+                match self.opens.remove(&k) {
+                    None => "none".into(),
+                    Some((p, permit)) => {
+                        let sid = self.sub_ids[k];
+                        let shared = Arc::new(Mutex::new(OutShared {
+                            data: Vec::new(),
+                            header: Vec::new(),
+                            need: None,
+                            in_frame: 0,
+                            frames: 0,
+                            plan,
+                            failed: false,
+                            dropped: false,
+                            waker: None,
+                        }));
+                        let substream = Substream::new_verif(
+                            peer(p),
+                            SubstreamId::from(sid),
+                            Box::new(OutIo(Arc::clone(&shared))),
+                            self.codec.clone(),
+                        );
+                        self.outs.insert(k, Out { shared });
+                        let conn = self.conns.get(&p).map_or(0, |c| c.id);
+                        let _ = self
+                            .tx
+                            .send(InnerTransportEvent::SubstreamOpened {
+                                peer: peer(p),
+                                protocol: ProtocolName::from(config::PROTOCOL_NAME),
+                                fallback: None,
+                                direction: Direction::Outbound(SubstreamId::from(sid)),
+                                connection_id: ConnectionId::from(conn),
+                                substream,
+                                opening_permit: permit,
+                            })
+                            .await;
+                        "ok".into()
+                    }
+                }
+            }
+            ["subfail", s] => {
+                let Some(k) = idx(s, 's') else { return bad() };
+                match self.opens.remove(&k) {
+                    None => "none".into(),
+                    Some(_) => {
+                        let _ = self
+                            .tx
+                            .send(InnerTransportEvent::SubstreamOpenFailure {
+                                substream: SubstreamId::from(self.sub_ids[k]),
+                                error: SubstreamError::ConnectionClosed,
+                            })
+                            .await;
+                        "ok".into()
+                    }
+                }
+            }
+            ["plan", s, rest @ ..] => {
+                let (Some(k), Some(plan)) = (idx(s, 's'), parse_plan(rest)) else { return bad() };
+                if rest.is_empty() {
+                    return bad();
+                }
+                match self.outs.get(&k) {
+                    None => "none".into(),
+                    Some(out) => {
+                        let mut s = out.shared.lock().unwrap();
+                        if s.dropped || s.failed {
+                            "none".into()
+                        } else {
+                            s.plan = plan;
+                            s.frames = 0;
+                            if let Some(w) = s.waker.take() {
+                                w.wake();
+                            }
+                            "ok".into()
+                        }
+                    }
+                }
+            }
+            ["resp", p, kind, entries] => {
+                let (Some(p), Some(kind)) = (n(p), Kind::parse(kind)) else { return bad() };
+                let Some(entries) = Self::entries(&kind, entries) else { return bad() };
+                self.handle.send_response(peer(p), entries).await;
+                "ok".into()
+            }
+            ["req", p, kind, cids] => {
+                let (Some(p), Some(kind)) = (n(p), Kind::parse(kind)) else { return bad() };
+                let Some(cids) = Self::wants(&kind, cids) else { return bad() };
+                self.handle.send_request(peer(p), cids).await;
+                "ok".into()
+            }
+            ["insub", p] => {
+                let Some(p) = n(p) else { return bad() };
+                match self.conns.get(&p) {
+                    None => "none".into(),
+                    Some(conn) => {
+                        let k = self.ins.len();
+                        let (end, ctl) = pipe(1 << 24);
+                        let substream = Substream::new_verif(
+                            peer(p),
+                            SubstreamId::from(1_000_000 + k),
+                            Box::new(end),
+                            self.codec.clone(),
+                        );
+                        let _ = self
+                            .tx
+                            .send(InnerTransportEvent::SubstreamOpened {
+                                peer: peer(p),
+                                protocol: ProtocolName::from(config::PROTOCOL_NAME),
+                                fallback: None,
+                                direction: Direction::Inbound,
+                                connection_id: ConnectionId::from(conn.id),
+                                substream,
+                                opening_permit: Permit::new(conn.tx.clone()),
+                            })
+                            .await;
+                        self.ins.push((p, ctl));
+                        format!("i{k}")
+                    }
+                }
+            }
+            [op @ ("inmsg" | "inbad" | "inbig" | "inclose" | "inreset"), i, rest @ ..] => {
+                let Some(k) = idx(i, 'i') else { return bad() };
+                let bytes = match (*op, rest) {
+                    ("inmsg", rest) => match Self::inbound_message(rest) {
+                        Some(m) => Some(frame(&m)),
+                        None => return bad(),
+                    },
+                    ("inbad", [h]) => match unhex_opt(h) {
+                        Some(b) if !b.is_empty() => Some(frame(&b)),
+                        _ => return bad(),
+                    },
+                    ("inbig", []) => {
+                        let mut b = frame(&vec![0u8; 0]);
+                        b.clear();
+                        let mut len = config::MAX_MESSAGE_SIZE + 1;
+                        while len >= 0x80 {
+                            b.push((len & 0x7f) as u8 | 0x80);
+                            len >>= 7;
+                        }
+                        b.push(len as u8);
+                        Some(b)
+                    }
+                    ("inclose", []) | ("inreset", []) => None,
+                    _ => return bad(),
+                };
+                match self.ins.get(k) {
+                    None => "none".into(),
+                    Some((_, ctl)) if ctl.local_closed() => "none".into(),
+                    Some((_, ctl)) => {
+                        match bytes {
+                            Some(b) => ctl.remote_write(&b),
+                            None if *op == "inclose" => ctl.remote_close(),
+                            None => ctl.reset(),
+                        }
+                        "ok".into()
+                    }
+                }
+            }
+            _ => return bad(),
+        };
+        self.settle().await;
+        let tail = self.drain();
+        format!("{res};{tail}")
+    }
+}
